@@ -50,6 +50,8 @@ def sym_eig():
         setattr(E, nm, rebind(getattr(EIG, nm)))
     e = E()
     e.solver = NS(linsolve=dshim.linsolve)
+    e.zstate_idx = np.array([], dtype=int)       # as EIG.__init__ leaves it
+    e.nz_counts = 0
     return e
 
 
@@ -65,10 +67,12 @@ def real_eig(n, m, fx, fy, gx, gy, Tf, names):
     e.system = NS(dae=dae)
     e.solver = Solver('klu')
     e.config = NS(tol=1e-6)
+    e.zstate_idx = np.array([], dtype=int)
+    e.nz_counts = 0
     return e, dae
 
 
-def h_state_matrix(n, m, zpat):
+def h_state_matrix(n, m, zpat, first=None):
     zpat = tuple(zpat)
     D = [i for i in range(n) if not zpat[i]]
     Z = [i for i in range(n) if zpat[i]]
@@ -99,11 +103,27 @@ def h_state_matrix(n, m, zpat):
             dae = NS(n=n, m=m, fx=dshim.M(fx, (n, n)), fy=dshim.M(fy, (n, m)), gx=dshim.M(gx, (m, n)),
                      gy=dshim.M(gy, (m, m)), Tf=Tf, x_name=list(names))
             e.system = NS(dae=dae)
+            if first is not None:          # an earlier analysis on the same object with other time constants
+                Tf1 = np.empty(n, dtype=object)
+                for i in range(n):
+                    Tf1[i] = 0.0 if first[i] else 1.0
+                dae.Tf = Tf1
+                e.calc_As()
+                dae.Tf = Tf
+                dae.x_name = list(names)
             As = e.calc_As()
             ent = lambda i, j: As[i, j]
             shape = As.size
         else:
             e, dae = real_eig(n, m, fx, fy, gx, gy, T, names)
+            if first is not None:
+                dae.Tf = np.array([0.0 if first[i] else 1.0 for i in range(n)])
+                try:
+                    e.calc_As()
+                except Exception:
+                    pass
+                dae.Tf = np.array(T, dtype=float)
+                dae.x_name = list(names)
             As = e.calc_As()
             As = np.array(As).reshape(As.size, order='F') if not isinstance(As, np.ndarray) else As
             import kvxopt
@@ -133,13 +153,31 @@ def h_state_matrix(n, m, zpat):
     return h
 
 
+class CArr:
+    """symbolic complex vector: what `self.mu` is to _store_stats (real, imag, abs)"""
+
+    def __init__(self, re, im):
+        self.real, self.imag = re, im
+
+    def __abs__(self):
+        out = np.empty(len(self.real), dtype=object)
+        for i in range(len(out)):
+            out[i] = (self.real[i] * self.real[i] + self.imag[i] * self.imag[i]).sqrt()
+        return out
+
+    def __len__(self):
+        return len(self.real)
+
+
 def h_store_stats(n=3):
     def h(I):
         from andes.routines.eig import EIG
         re = I.arr(*[f're{i}' for i in range(n)])
+        im = I.arr(*[f'im{i}' for i in range(n)])
         tol = I.real('tol')
         I.assume(LT(0, tol))
-        e = NS(mu=NS(real=re), config=NS(tol=tol))
+        mu = CArr(re, im) if I.symbolic else (np.array(re, dtype=float) + 1j * np.array(im, dtype=float))
+        e = NS(mu=mu, config=NS(tol=tol))
         EIG._store_stats(e)
         pos = sum(ITE(LT(tol, re[i]), 1.0, 0.0) for i in range(n))
         neg = sum(ITE(LT(re[i], -tol), 1.0, 0.0) for i in range(n))
@@ -256,6 +294,11 @@ def region_of(values, cname):
 
 def job(spec):
     kind, arg = spec
+    if kind == 'As2':
+        n, m, zp, first = arg
+        return H.run(f'EIG.calc_As twice[n={n},m={m},zeroT={"".join(map(str, first))} then {"".join(map(str, zp))}]',
+                     h_state_matrix(n, m, zp, first), timeout_ms=60000,
+                     region=lambda v, c: 'second analysis on the same object: ' + region_of(v, c))
     if kind == 'As':
         n, m, zp = arg
         return H.run(f'EIG.calc_As[n={n},m={m},zeroT={"".join(map(str, zp))}]', h_state_matrix(n, m, zp), timeout_ms=60000,
@@ -297,6 +340,7 @@ def main():
             if not thorough and n == 3 and sum(zp) > 1:
                 continue
             jobs.append(('As', (n, m, zp)))
+    jobs += [('As2', (2, 1, (0, 0), (0, 1))), ('As2', (2, 1, (0, 1), (1, 0))), ('As2', (3, 1, (0, 0, 0), (0, 1, 0)))]
     jobs += [('stats', 0), ('pf', 2), ('pf', 3), ('assoc', 3)]
     ck.merge(core.pmap(job, jobs))
     ck.sample({'obligation': 'As[a,b]*dgy*det(G_ZZ)*T_i == det(G_ZZ)*G_ij - G_iZ adj(G_ZZ) G_Zj, G = dgy*fx - fy adj(gy) gx'})
